@@ -13,6 +13,9 @@ PART = 0
 GROUP = "cg"
 
 
+from twisted.internet.defer import CancelledError as TCancelledError  # noqa: E402
+
+
 class ProcessorBoom(Exception):
     pass
 
@@ -304,12 +307,15 @@ def run_scenario(sc, hooks=None, world=None, crash_after_write=None):
                 call["done_idx"] = len(log)
                 log.append(("proc_done", w.clock.seconds(), n, ok))
             kind = beh[0]
+            # what a failing processor fails with: mostly an exception of its own; now and then the application has
+            # cancelled its own unit of work and the failure is a CancelledError (no draw: by scenario and call)
+            boom = TCancelledError if (sc["seed"] + n) % 4 == 0 else ProcessorBoom
             if kind == "sync":
                 done(True)
                 return None
             if kind == "fail_sync":
                 done(False)
-                raise ProcessorBoom("processor failed on call %d" % n)
+                raise boom("processor failed on call %d" % n)
             if kind == "chained":
                 def inner_cancelled(_d):
                     if call["done"] is None:
@@ -337,7 +343,7 @@ def run_scenario(sc, hooks=None, world=None, crash_after_write=None):
                         d.callback(None)
                     else:
                         done(False)
-                        d.errback(ProcessorBoom("processor failed (async) on call %d" % n))
+                        d.errback(boom("processor failed (async) on call %d" % n))
 
                 def cancelled(_d):
                     if call["done"] is None:
@@ -458,6 +464,11 @@ def run_scenario(sc, hooks=None, world=None, crash_after_write=None):
                 arg = start_offset_arg(["committed"])
             elif how == "earliest":
                 arg = start_offset_arg(["earliest"])
+            elif how == "rewind":
+                # the application goes back: an explicit offset at the start of what the log still holds
+                lg_ = cl.log(TOPIC, PART)
+                have = [o for o in lg_.offsets_from(0) if o >= lg_.log_start]
+                arg = have[0] if have else 0
             else:
                 lp = c.last_processed_offset
                 arg = (lp + 1) if lp is not None else start_offset_arg(sc["start"])
